@@ -341,6 +341,81 @@ theorem C04_truncated (line : Bytes) (h : (41 : Nat) ∉ line) : parseAuditHeade
           have : (41 : Nat) ∈ (line.drop (a + b + c)).drop d := by rw [hd]; simp
           exact h (List.mem_of_mem_drop (List.mem_of_mem_drop this))
 
+/-- A line decomposes when it is cut at '(' '.' ':' ')' — the first '(' of the line, the first '.'
+after it, the first ':' after that, the first ')' after that — into three digit strings that are a
+valid int64, int64 and uint32. -/
+def Decomposes (line : Bytes) (sec nsec : Int) (seq : Nat) (e : Int) : Prop :=
+  ∃ pre S M N rest, (40 : Nat) ∉ pre ∧ (46 : Nat) ∉ S ∧ (58 : Nat) ∉ M ∧ (41 : Nat) ∉ N ∧
+    line = pre ++ 40 :: (S ++ 46 :: (M ++ 58 :: (N ++ 41 :: rest))) ∧
+    headerNums S M N = some (sec, nsec, seq) ∧
+    e = ((pre.length + (1 + S.length) + (1 + M.length) + (1 + N.length) : Nat) : Int)
+
+/-- success ⇔ decomposes (the direction `C04_error_cases` leaves open is the first one): the header
+parser answers with numbers exactly when the line decomposes, and then with the numbers of the
+decomposition and the position of its ')'. -/
+theorem C04_success_iff_decomposes (line : Bytes) (sec nsec : Int) (seq : Nat) (e : Int) :
+    parseAuditHeader line = Res.ok (sec, nsec, seq, e) ↔ Decomposes line sec nsec seq e := by
+  constructor
+  · exact parseAuditHeader_ok_decomp
+  · rintro ⟨pre, S, M, N, rest, n1, n2, n3, n4, el, hn, he⟩
+    rw [el, parseAuditHeader_decomp pre S M N rest n1 n2 n3 n4, hn, he]
+
+/-- the header parser has three outcomes only, and the middle one is the error of the property:
+numbers of a decomposition, or "hdr"; it never indexes out of range. -/
+theorem C04_error_iff (line : Bytes) :
+    parseAuditHeader line = Res.err "hdr" ↔ ¬ ∃ sec nsec seq e, Decomposes line sec nsec seq e := by
+  constructor
+  · rintro h ⟨sec, nsec, seq, e, hd⟩
+    rw [(C04_success_iff_decomposes line sec nsec seq e).2 hd] at h
+    cases h
+  · intro h
+    cases hp : parseAuditHeader line with
+    | ok q =>
+      obtain ⟨sec, nsec, seq, e⟩ := q
+      exact absurd ⟨sec, nsec, seq, e, (C04_success_iff_decomposes line sec nsec seq e).1 hp⟩ h
+    | panic => exact absurd hp (parseAuditHeader_no_panic line)
+    | err c =>
+      unfold parseAuditHeader at hp
+      split at hp
+      · cases hp; rfl
+      · split at hp
+        · split at hp
+          · cases hp; rfl
+          · cases hp
+        · cases hp
+
+/-- … and the same for `Parse` as a whole: a message comes back exactly when the trimmed text
+decomposes; it then carries the given type, the trimmed text as RawData and the numbers of the
+decomposition; otherwise the answer is the header error and no message. -/
+theorem C04_parse_iff_decomposes (typ : Nat) (line : Bytes) :
+    (∀ m, parse typ line = Res.ok m →
+      m.typ = typ ∧ m.raw = trimSpace line ∧ ∃ e, Decomposes (trimSpace line) m.sec m.nsec m.seq e) ∧
+    ((¬ ∃ sec nsec seq e, Decomposes (trimSpace line) sec nsec seq e) → parse typ line = Res.err "hdr") := by
+  constructor
+  · intro m hm
+    unfold parse at hm
+    cases hp : parseAuditHeader (trimSpace line) with
+    | err c => simp [hp, bind, Bind.bind] at hm
+    | panic => simp [hp, bind, Bind.bind] at hm
+    | ok q =>
+      obtain ⟨sec, nsec, seq, e⟩ := q
+      have hd := (C04_success_iff_decomposes _ sec nsec seq e).1 hp
+      simp only [hp, bind, Bind.bind] at hm
+      cases hs : sliceFrom (trimSpace line) e with
+      | err c => simp [hs] at hm
+      | panic => simp [hs] at hm
+      | ok tail =>
+        simp only [hs, Res.ok.injEq] at hm
+        subst hm
+        exact ⟨rfl, rfl, e, hd⟩
+  · intro h
+    exact (C04_error_cases line).2.2 "hdr" typ ((C04_error_iff _).2 h)
+
+/-- non-vacuity of `Decomposes`: the header every test log starts with. -/
+example : Decomposes (ofString "audit(1490137971.011:50406): a=b") 1490137971 11000000 50406 26 :=
+  ⟨ofString "audit", ofString "1490137971", ofString "011", ofString "50406", ofString ": a=b",
+    by decide, by decide, by decide, by decide, by decide, by decide, by decide⟩
+
 /-- non-vacuity: the hypotheses of the round trip hold for a concrete line. -/
 example : trimSpace (writtenHeader 1490137971 11 50406 ++ ofString ": " ++ ofString "a=b") =
     writtenHeader 1490137971 11 50406 ++ ofString ": a=b" := by
